@@ -182,6 +182,7 @@ func (vc *VC) execFunc(fn *ssa.Function, args []Val, st *State, reach string, de
 	}
 	vc.curFn = append(vc.curFn, fn)
 	defer func() { vc.curFn = vc.curFn[:len(vc.curFn)-1] }()
+	vc.assumeTypeInvs(fn, args, st, reach)
 
 	// name environment for invariants
 	fr.nameEnv = map[string]Val{}
